@@ -417,7 +417,7 @@ def check_property(pid, tier='quick', seed=0, extra=None):
                         canaries=r['canaries'], mutants_recorded=r['mutants_total'],
                         undecided=r['undecided']) for r in results],
             bounded_standins=standins,
-            known_findings=[dict(unit=u, obligation=f['function'], what=[x['what'] for x in k]) for (u, f, k) in known_hits],
+            known_findings=[dict(unit=u, obligation=f['function'], what=sorted(set(x['what'] for x in k))) for (u, f, k) in known_hits],
             explanation='obligations = functions (exec/proof/spec-termination) Verus generated verification conditions for in the assembled units; bounded stand-ins are not counted.',
         ),
         assumptions=trusted + ['extraction rewrites listed per unit under extraction_drops',
@@ -436,7 +436,7 @@ def check_property(pid, tier='quick', seed=0, extra=None):
             r['unit'], r['status'], r.get('verified'), r.get('errors'), len(r['functions']),
             ','.join('%s:%s' % (c['name'], c['status']) for c in r['canaries']) or '-', r['wall']))
     for (u, f, k) in known_hits:
-        print('KNOWN-FINDING: property=%s %s::%s %s' % (pid, u, f['function'], '; '.join(x['what'] for x in k)))
+        print('KNOWN-FINDING: property=%s %s::%s %s' % (pid, u, f['function'], '; '.join(sorted(set(x['what'] for x in k)))))
     rc = 0
     if violations:
         os.makedirs(os.path.join(VERIF, 'replays', pid), exist_ok=True)
